@@ -3799,6 +3799,12 @@ let bc_wf num_regs fuse p =
        (&&) (bwd_valid code Z0 lin) (live_ok num_regs code p.bp_live Z0 lin)
      | None -> false)
 
+(** val live_regs_ok : z -> bprog -> bool **)
+
+let live_regs_ok num_regs p =
+  forallb (fun l -> (&&) (Z.leb Z0 l) (bset_sub l (reg_mask num_regs)))
+    p.bp_live
+
 (** val bc_wf_why : z -> bool -> bprog -> z **)
 
 let bc_wf_why num_regs fuse p =
